@@ -539,6 +539,9 @@ def run(ctx, load):
     ctx.floors.pop(('C12.dispatcher-checks', ctx.config), None)
     ctx.floor('C08.method-guard', 11)
     check_vtable_calls(P, ctx)
+    # the cache is consulted by the dispatcher alone: a reader elsewhere is not covered by the agreement of entry and scan decided above
+    from .rules_c18 import check_cache_regions
+    ctx.borrow('C08.cache-only-in-dispatcher', 2, lambda: check_cache_regions(P, ctx), only=lambda o: o['rule'] == 'C18.cache-transparent' and ('raw-cache-read' in o['key'] or o['key'].startswith('src/') or o['key'] == 'anchor'))
     if ctx.tier == 'thorough':
         for cfg in ('nocache', 'ndebug', 'ndebug+nocache'):
             Pc = load(None, cfg, [WITNESS])
